@@ -315,6 +315,19 @@ def composite_rules(chk, qual, weighted):
         if none_exit:
             continue
         if len({N(o.value) for o in main}) != 1:
+            # one of the answers is a value REMEMBERED in a field of the composite (a memo keyed by the demand, the
+            # number of children, ...): the children report their own supply / allocation at any time, so nothing
+            # the composite can observe tells it the memo went stale
+            def stored(t):
+                t = N(t)
+                while t[0] in ("sub", "proj"):
+                    t = N(t[1])
+                return t[0] == "attr" and t[1] == SELF and t[2] != "children" and prog.lookup_method(cls, t[2], kind="getter") is None
+
+            memo = [o for o in main if stored(o.value)]
+            if memo and len(memo) < len(main):
+                chk.bad("O7.4", g.qual, "%s answers from a remembered value (%s) on some paths instead of reading the children: a child whose %s changed since is not reflected" % (prop, show(N(memo[0].value)), prop), node=g.node, stmt="%s-memoised" % prop)
+                continue
             chk.undecided("O7.4", g.qual, "%s is not a single aggregate expression" % prop, node=g.node)
             continue
         t = N(main[0].value)
